@@ -407,6 +407,19 @@ let gen_render r ~tier oc =
       done;
       if thorough || rint r 4 = 0 then emit_render oc ("filter-in-for:" ^ f) (Printf.sprintf "{%% for q in %s|%s %%}{{ q }}{%% endfor %%}" v f);
       if thorough || rint r 6 = 0 then emit_render oc ("apply:" ^ f) (Printf.sprintf "{%% apply %s %%}{{ %s }}{%% endapply %%}" f v)) shapes) filters;
+  (* every filter with every pair of edge arguments (zero, the empty string, a negative, null, the empty list) on a
+     string, a list and a number: the argument combinations a size, a limit or a separator can take *)
+  let edge = [ "0"; "''"; "-1"; "1"; "null"; "[]"; "z"; "e"; "'0'"; "0.0" ] in
+  List.iter (fun f ->
+    List.iter (fun v ->
+      List.iter (fun a ->
+        emit_render oc ("filter-edge:" ^ f) (Printf.sprintf "{{ %s|%s(%s) }}" v f a);
+        List.iter (fun b -> emit_render oc ("filter-edge:" ^ f) (Printf.sprintf "{{ %s|%s(%s, %s) }}" v f a b)) edge) edge)
+      [ "s"; "ss"; "i"; "e" ]) filters;
+  List.iter (fun f ->
+    List.iter (fun a -> List.iter (fun b ->
+      emit_render oc ("function-edge:" ^ f) (Printf.sprintf "{{ %s(%s, %s) }}" f a b);
+      emit_render oc ("function-edge:" ^ f) (Printf.sprintf "{{ %s(s, %s, %s) }}" f a b)) edge) edge) functions;
   List.iter (fun f ->
     emit_render oc ("function:" ^ f) (Printf.sprintf "{{ %s() }}" f);
     Array.iter (fun v ->
